@@ -759,7 +759,12 @@ pub async fn compaction_round(rng: &mut Rng, t: &mut Tbl, ctx: &mut Ctx, opts: &
     if !rest.is_empty() && rng.chance(1, 2) {
         batches.push(rest);
     }
-    let mut handle = planning.clone(); // the (possibly stale) planning handle
+    // the planning handle (stale if another writer committed meanwhile), or a handle refreshed to the latest version
+    let refreshed = mode == "interleaved" && rng.chance(1, 2);
+    if refreshed {
+        sink.count("e2e:interleaved:commit-through-refreshed-handle");
+    }
+    let mut handle = if refreshed { t.ds.clone() } else { planning.clone() };
     let v_ref = t.ds.version().version;
     let mut reference = reference;
     for (bi, batch) in batches.into_iter().enumerate() {
